@@ -802,7 +802,8 @@ func run(c Case) ev.Verdict {
 		return ev.Fail("%s stalled after %d of %d bytes: returned %v after the device went quiet; timeout in force %v (+%v slack)", c.Op, k, length, since, applicable, upper-applicable)
 	}
 
-	if s.single && !s.privErr && elapsed < applicable {
+	// (coarse on purpose: it has to tell the competing timeouts apart, not to pin the polling cadence)
+	if s.single && !s.privErr && elapsed < applicable*9/10 {
 		return ev.Fail("%s: returned after %v, before its timeout %v (precedence of the per-operation timeout)", c.Op, elapsed, applicable)
 	}
 
